@@ -3,6 +3,8 @@ Closed forms for the two simplest pattern shapes used by the configuration parse
 
 * `re.split('[class]', text)`      = `splitAt class text`                      (`split_chr`)
 * `re.sub('[class]*', '', text)`   = `text.filter (· ∉ class)`                 (`sub_star_chr_nil`)
+* `re.sub('[class]+', '', text)`   = `text.filter (· ∉ class)`                 (`sub_plus_chr_nil`; both: `sub_rep_chr_nil`)
+* `re.sub('[class]', '', text)`    = the same                                  (`sub_one_chr_nil`; all three: `DeletesClass.sub_nil`)
 
 plus the round trip `splitAt p (sep.join(parts)) = parts` (`splitAt_join`).
 
@@ -606,8 +608,289 @@ theorem sub_star_chr_nil (cs : CharSet) (text : List Char) :
   rw [finditer_default, subgo_star cs text _ none [] text 0 false [] rfl rfl (by simp)]
   simp
 
+/-! ### `[class]+` (and `[class]{lo,}` for `lo ≤ 1`): `matchHere`, `scan`, `finditerAux`, `finditer`, `sub`
+
+An equivalent way to delete a class of characters is `re.sub('[class]+', '', text)`; the closed form is the same. -/
+
+/-- `repLoop_star_chr` for any lower bound already reached (`lo ≤ count`) -/
+theorem repLoop_ge_chr (cs : CharSet) (lo : Nat) (p0 : Nat) (adv : Bool) :
+    ∀ (rest : List Char) (fuel count : Nat) (last : Option Nat) (prev : Option Char) (pos : Nat)
+      (caps : List (Nat × Nat × Nat)),
+      rest.length < fuel → lo ≤ count → last ≠ some pos → (adv = false ∨ p0 < pos) →
+      repLoop (Rx.chr cs).m lo none fuel count last ⟨prev, rest, pos, caps⟩
+        (fun s' => if adv && s'.pos == p0 then none else some (⟨p0, s'.pos, s'.caps⟩ : Match))
+      = some ⟨p0, pos + (rest.takeWhile cs.mem).length, caps⟩ := by
+  intro rest
+  induction rest with
+  | nil =>
+    intro fuel count last prev pos caps hf hlo hl hp
+    obtain ⟨f, rfl⟩ : ∃ f, fuel = f + 1 := ⟨fuel - 1, by omega⟩
+    rw [repLoop]
+    have hk : (adv && pos == p0) = false := by
+      rcases hp with h | h
+      · simp [h]
+      · have : (pos == p0) = false := by simp; omega
+        simp [this]
+    have hnl : ¬ count < lo := by omega
+    simp [canMore, hl, chr_m_nil, hk, hnl]
+  | cons c t ih =>
+    intro fuel count last prev pos caps hf hlo hl hp
+    obtain ⟨f, rfl⟩ : ∃ f, fuel = f + 1 := ⟨fuel - 1, by omega⟩
+    have hnl : ¬ count < lo := by omega
+    rw [repLoop]
+    by_cases hc : cs.mem c = true
+    · have := ih f (count + 1) (some pos) (some c) (pos + 1) caps (by simp at hf; omega) (by omega) (by simp)
+        (by rcases hp with h | h; exact Or.inl h; exact Or.inr (by omega))
+      simp only [hnl, if_false, canMore, Bool.true_and, bne_iff_ne, ne_eq, hl, not_false_eq_true,
+        if_true, chr_m_cons, hc, this, List.takeWhile_cons, List.length_cons]
+      simp only [Option.some.injEq, Match.mk.injEq, and_true, true_and]
+      omega
+    · have hc' : cs.mem c = false := by simpa using hc
+      have hk : (adv && pos == p0) = false := by
+        rcases hp with h | h
+        · simp [h]
+        · have : (pos == p0) = false := by simp; omega
+          simp [this]
+      simp [canMore, hl, chr_m_cons, hc', hk, hnl]
+
+/-- `[class]+` at a cursor: the maximal run, which must be non-empty (so `must_advance` is irrelevant) -/
+theorem matchHere_plus (cs : CharSet) (prev : Option Char) (rest : List Char) (pos : Nat) (adv : Bool) :
+    matchHere (.rep (.chr cs) 1 none) ⟨prev, rest, pos, []⟩ adv =
+      if (rest.takeWhile cs.mem).length == 0 then none
+      else some ⟨pos, pos + (rest.takeWhile cs.mem).length, []⟩ := by
+  show repLoop (Rx.chr cs).m 1 none (rest.length + 1 + 2) 0 none ⟨prev, rest, pos, []⟩
+    (fun s' => if adv && s'.pos == pos then none else some (⟨pos, s'.pos, s'.caps⟩ : Match)) = _
+  rw [repLoop]
+  cases rest with
+  | nil => simp [chr_m_nil]
+  | cons c t =>
+    by_cases hc : cs.mem c = true
+    · have := repLoop_ge_chr cs 1 pos adv t (t.length + 1 + 1 + 1) (0 + 1) none (some c) (pos + 1) []
+        (by omega) (by omega) (by simp) (Or.inr (by omega))
+      simp only [Nat.lt_add_one, if_true, chr_m_cons, hc, List.length_cons, this, List.takeWhile_cons]
+      simp
+      omega
+    · have hc' : cs.mem c = false := by simpa using hc
+      simp [chr_m_cons, hc']
+
+theorem scan_plus_none (cs : CharSet) : ∀ (rest : List Char) (prev : Option Char) (pos : Nat) (adv : Bool),
+    (∀ x ∈ rest, cs.mem x = false) → scan (.rep (.chr cs) 1 none) prev rest pos adv = none := by
+  intro rest
+  induction rest with
+  | nil => intro prev pos adv _; rw [scan, matchHere_plus]; simp
+  | cons c t ih =>
+    intro prev pos adv h
+    have hc : cs.mem c = false := h c (by simp)
+    rw [scan, matchHere_plus]
+    simp only [List.takeWhile_cons, hc, Bool.false_eq_true, if_false, List.length_nil, beq_self_eq_true, if_true]
+    exact ih _ _ _ (fun x hx => h x (by simp [hx]))
+
+/-- leftmost match of `[class]+`: the maximal run starting at the first class character -/
+theorem scan_plus_some (cs : CharSet) (c : Char) (t : List Char) (hc : cs.mem c = true) :
+    ∀ (a : List Char) (prev : Option Char) (pos : Nat) (adv : Bool), (∀ x ∈ a, cs.mem x = false) →
+      scan (.rep (.chr cs) 1 none) prev (a ++ c :: t) pos adv =
+        some ⟨pos + a.length, pos + a.length + 1 + (t.takeWhile cs.mem).length, []⟩ := by
+  intro a
+  induction a with
+  | nil =>
+    intro prev pos adv _
+    rw [List.nil_append, scan, matchHere_plus]
+    simp [hc]
+    omega
+  | cons x a ih =>
+    intro prev pos adv h
+    have hx : cs.mem x = false := h x (by simp)
+    rw [List.cons_append, scan, matchHere_plus]
+    simp only [List.takeWhile_cons, hx, Bool.false_eq_true, if_false, List.length_nil, beq_self_eq_true, if_true]
+    rw [ih _ _ _ (fun y hy => h y (by simp [hy]))]
+    simp only [List.length_cons, Option.some.injEq, Match.mk.injEq, and_true]
+    omega
+
+
+/-- the matches of `[class]+`: every maximal non-empty run of class characters -/
+def plusMatches (p : Char → Bool) : List Char → Nat → List Match
+  | [], _ => []
+  | c :: t, pos =>
+    if p c then ⟨pos, pos + 1 + (t.takeWhile p).length, []⟩ ::
+        plusMatches p (t.dropWhile p) (pos + 1 + (t.takeWhile p).length)
+    else plusMatches p t (pos + 1)
+termination_by l => l.length
+decreasing_by
+  · have := length_takeWhile_add_dropWhile p t
+    simp only [List.length_cons]; omega
+  · simp
+
+theorem plusMatches_none (p : Char → Bool) : ∀ (l : List Char) (pos : Nat), (∀ x ∈ l, p x = false) →
+    plusMatches p l pos = [] := by
+  intro l
+  induction l with
+  | nil => intros; rw [plusMatches]
+  | cons c t ih =>
+    intro pos h
+    rw [plusMatches, h c (by simp)]
+    simpa using ih _ (fun x hx => h x (by simp [hx]))
+
+theorem plusMatches_append_run (p : Char → Bool) (c : Char) (t : List Char) (hc : p c = true) :
+    ∀ (a : List Char) (pos : Nat), (∀ x ∈ a, p x = false) →
+      plusMatches p (a ++ c :: t) pos =
+        ⟨pos + a.length, pos + a.length + 1 + (t.takeWhile p).length, []⟩ ::
+          plusMatches p (t.dropWhile p) (pos + a.length + 1 + (t.takeWhile p).length) := by
+  intro a
+  induction a with
+  | nil => intro pos _; rw [List.nil_append, plusMatches]; simp [hc]
+  | cons x a ih =>
+    intro pos h
+    rw [List.cons_append, plusMatches, h x (by simp)]
+    simp only [Bool.false_eq_true, if_false]
+    rw [ih _ (fun y hy => h y (by simp [hy]))]
+    simp only [List.length_cons]
+    have e : pos + 1 + a.length = pos + (a.length + 1) := by omega
+    rw [e]
+
+theorem drop_run (p : Char → Bool) (a : List Char) (c : Char) (t : List Char) :
+    (a ++ c :: t).drop (a.length + 1 + (t.takeWhile p).length) = t.dropWhile p := by
+  rw [← List.drop_drop, drop_append_cons, drop_length_takeWhile]
+
+/-- the matches of `[class]+` from any cursor, for any sufficient fuel -/
+theorem finditerAux_plus (cs : CharSet) : ∀ (fuel : Nat) (prev : Option Char) (rest : List Char) (pos : Nat) (adv : Bool),
+    rest.length < fuel → finditerAux (.rep (.chr cs) 1 none) fuel prev rest pos adv = plusMatches cs.mem rest pos := by
+  intro fuel
+  induction fuel with
+  | zero => intro _ _ _ _ h; omega
+  | succ n ih =>
+    intro prev rest pos adv hf
+    rcases split_first cs.mem rest with h | ⟨a, c, t, rfl, ha, hc⟩
+    · rw [finditerAux_none _ _ _ _ _ _ (scan_plus_none cs _ _ _ _ h), plusMatches_none _ _ _ h]
+    · obtain ⟨p', hp'⟩ := finditerAux_some _ n prev _ pos adv _ (scan_plus_some cs c t hc a prev pos adv ha)
+      rw [hp', plusMatches_append_run _ c t hc a pos ha]
+      simp only []
+      have e : pos + a.length + 1 + (t.takeWhile cs.mem).length - pos = a.length + 1 + (t.takeWhile cs.mem).length := by
+        omega
+      have hlen := length_takeWhile_add_dropWhile cs.mem t
+      rw [e, drop_run, ih _ _ _ _ (by simp only [List.length_append, List.length_cons] at hf; omega)]
+
+/-- `finditer` for `[class]+`: exactly the maximal runs of class characters, in order -/
+theorem finditer_plus_chr (cs : CharSet) (text : List Char) :
+    (Rx.rep (.chr cs) 1 none).finditer text = plusMatches cs.mem text 0 := by
+  rw [finditer_default]
+  exact finditerAux_plus cs _ _ _ _ _ (by omega)
+
+/-- the `sub` accumulator run over the matches of `[class]+`: exactly the non-class characters are copied -/
+theorem subgo_plus (cs : CharSet) (text : List Char) :
+    ∀ (n : Nat) (pre rest : List Char) (pos : Nat) (acc : List Char),
+      rest.length ≤ n → text = pre ++ rest → pos = pre.length →
+      Rx.subWith.go text (fun _ => []) (plusMatches cs.mem rest pos) pos acc
+        = acc ++ rest.filter (fun c => !cs.mem c) := by
+  intro n
+  induction n with
+  | zero =>
+    intro pre rest pos acc hn ht hpos
+    have : rest = [] := List.eq_nil_of_length_eq_zero (by omega)
+    subst this
+    rw [plusMatches, Rx.subWith.go, ht, hpos]
+    simp
+  | succ n ih =>
+    intro pre rest pos acc hn ht hpos
+    rcases split_first cs.mem rest with h | ⟨a, c, t, rfl, ha, hc⟩
+    · rw [plusMatches_none _ _ _ h, Rx.subWith.go, ht, hpos]
+      have : rest.filter (fun c => !cs.mem c) = rest :=
+        List.filter_eq_self.2 (fun x hx => by simp [h x hx])
+      simp [this]
+    · rw [plusMatches_append_run _ c t hc a pos ha, Rx.subWith.go]
+      simp only []
+      have hsl : slice text pos (pos + a.length) = a := by
+        rw [ht, hpos, ← List.append_assoc]; exact slice_mid pre a (c :: t)
+      have hlen := length_takeWhile_add_dropWhile cs.mem t
+      have hfa : a.filter (fun c => !cs.mem c) = a :=
+        List.filter_eq_self.2 (fun x hx => by simp [ha x hx])
+      rw [hsl, ih (pre ++ a ++ c :: t.takeWhile cs.mem) (t.dropWhile cs.mem) _ _
+          (by simp only [List.length_append, List.length_cons] at hn; omega)
+          (by rw [ht]; simp [List.takeWhile_append_dropWhile])
+          (by simp [hpos]; omega),
+        filter_not_dropWhile, List.filter_append, hfa, List.filter_cons]
+      simp [hc]
+
+theorem sub_plus_chr_nil (cs : CharSet) (text : List Char) :
+    (Rx.rep (.chr cs) 1 none).sub [] text = text.filter (fun c => !cs.mem c) := by
+  show Rx.subWith.go text (fun _ => []) ((Rx.rep (.chr cs) 1 none).finditer text) 0 [] = _
+  rw [finditer_plus_chr, subgo_plus cs text text.length [] text 0 [] (Nat.le_refl _) rfl rfl]
+  simp
+
+/-- `re.sub('[class]*', '', text)` and `re.sub('[class]+', '', text)` both delete exactly the class characters
+(a lower bound of 2 or more would leave isolated class characters in place) -/
+theorem sub_rep_chr_nil (cs : CharSet) (lo : Nat) (hlo : lo ≤ 1) (text : List Char) :
+    (Rx.rep (.chr cs) lo none).sub [] text = text.filter (fun c => !cs.mem c) := by
+  obtain rfl | rfl : lo = 0 ∨ lo = 1 := by omega
+  · exact sub_star_chr_nil cs text
+  · exact sub_plus_chr_nil cs text
+
+
+/-! ### every spelling of "delete the characters of a class" -/
+
+/-- the `sub` accumulator run over the matches of `[class]`: exactly the non-class characters are copied -/
+theorem subgo_chr (p : Char → Bool) (text : List Char) :
+    ∀ (n : Nat) (pre rest : List Char) (pos : Nat) (acc : List Char),
+      rest.length ≤ n → text = pre ++ rest → pos = pre.length →
+      Rx.subWith.go text (fun _ => []) (chrMatches p rest pos) pos acc
+        = acc ++ rest.filter (fun c => !p c) := by
+  intro n
+  induction n with
+  | zero =>
+    intro pre rest pos acc hn ht hpos
+    have : rest = [] := List.eq_nil_of_length_eq_zero (by omega)
+    subst this
+    rw [chrMatches, Rx.subWith.go, ht, hpos]
+    simp
+  | succ n ih =>
+    intro pre rest pos acc hn ht hpos
+    rcases split_first p rest with h | ⟨a, c, t, rfl, ha, hc⟩
+    · rw [chrMatches_none _ _ _ h, Rx.subWith.go, ht, hpos]
+      have : rest.filter (fun c => !p c) = rest :=
+        List.filter_eq_self.2 (fun x hx => by simp [h x hx])
+      simp [this]
+    · rw [chrMatches_append_sep _ c t hc a pos ha, Rx.subWith.go]
+      simp only []
+      have hsl : slice text pos (pos + a.length) = a := by
+        rw [ht, hpos, ← List.append_assoc]; exact slice_mid pre a (c :: t)
+      have hfa : a.filter (fun c => !p c) = a :=
+        List.filter_eq_self.2 (fun x hx => by simp [ha x hx])
+      rw [hsl, ih (pre ++ a ++ [c]) t _ _
+          (by simp only [List.length_append, List.length_cons] at hn; omega)
+          (by rw [ht]; simp)
+          (by simp [hpos]; omega),
+        List.filter_append, hfa, List.filter_cons]
+      simp [hc]
+
+/-- `re.sub('[class]', '', text)` deletes exactly the characters of the class -/
+theorem sub_one_chr_nil (cs : CharSet) (text : List Char) :
+    (Rx.chr cs).sub [] text = text.filter (fun c => !cs.mem c) := by
+  show Rx.subWith.go text (fun _ => []) ((Rx.chr cs).finditer text) 0 [] = _
+  rw [finditer_chr, subgo_chr cs.mem text text.length [] text 0 [] (Nat.le_refl _) rfl rfl]
+  simp
+
+/-- the spellings of "delete every character of the class": `[class]`, `[class]*`, `[class]+` with an empty replacement.
+A proof that unfolds a regenerated deleter pattern should go through this predicate (`by constructor` finds the
+spelling), not through the lemma for one spelling. -/
+inductive DeletesClass (cs : CharSet) : Rx → Prop
+  | one : DeletesClass cs (.chr cs)
+  | star : DeletesClass cs (.rep (.chr cs) 0 none)
+  | plus : DeletesClass cs (.rep (.chr cs) 1 none)
+
+theorem DeletesClass.sub_nil {cs : CharSet} {r : Rx} (h : DeletesClass cs r) (text : List Char) :
+    r.sub [] text = text.filter (fun c => !cs.mem c) := by
+  cases h
+  · exact sub_one_chr_nil cs text
+  · exact sub_star_chr_nil cs text
+  · exact sub_plus_chr_nil cs text
+
+
 #print axioms split_chr
 #print axioms sub_star_chr_nil
+#print axioms sub_plus_chr_nil
+#print axioms sub_rep_chr_nil
+#print axioms sub_one_chr_nil
+#print axioms DeletesClass.sub_nil
+#print axioms finditer_plus_chr
 #print axioms splitAt_join
 #print axioms finditer_chr
 #print axioms finditer_star_chr
